@@ -13,6 +13,16 @@ func (e StdEng) StackDense(t DenseTensor, axis int, others ...DenseTensor) (retV
 		return
 	}
 
+	// the stacking kernels interleave raw blocks: column-major operands are read through row-major copies
+	t = asRowMajor(t)
+	for i, ot := range others {
+		if rm := asRowMajor(ot); rm != ot {
+			if i == 0 {
+				others = append([]DenseTensor(nil), others...) // do not write into the caller's slice
+			}
+			others[i] = rm
+		}
+	}
 	for _, ot := range others {
 		if !ot.Shape().Eq(t.Shape()) || ot.Dims() != opdims {
 			err = errors.Errorf(shapeMismatch, t.Shape(), ot.Shape())
